@@ -87,6 +87,17 @@ def base_cases(ctx, seed, tier):
                     + " " + " ".join("r%d" % k for k in drain) + " i1 i2 f1"))
     asc = " ".join("i%d" % i for i in range(60)) + " ! " + " ".join("r%d" % i for i in range(60)) + " i5 f5"
     out.append(("btree64", asc))
+    # the same operation failing part-way several times in a row (token *<n>: the n-th request from now is refused), then
+    # memory is back: whatever the failed attempts left behind must not accumulate (root splits, leaf splits, hash grows)
+    for fill, reps in ((6, 6), (6, 2), (30, 6), (45, 3)):
+        for nth in (0, 1):
+            pre = " ".join("i%d" % i for i in range(fill))
+            again = " ".join("*%d i%d" % (nth, fill) for _ in range(reps))
+            out.append(("btree64", "%s %s ! i%d %s f%d f0 r0 i0" % (pre, again, fill, " ".join("i%d" % i for i in range(fill + 1, fill + 40)), fill)))
+    for fill, reps in ((1, 4), (4, 4), (9, 3)):
+        pre = " ".join("i%d" % i for i in range(fill))
+        again = " ".join("*0 i%d" % fill for _ in range(reps))
+        out.append(("hash", "m %s %s ! i%d %s f%d f0" % (pre, again, fill, " ".join("i%d" % i for i in range(fill + 1, fill + 20)), fill)))
     # default page size: > 510 inserts to split the root leaf
     for n in ([600] if not big else [600, 1300]):
         seq = list(range(n))
@@ -231,7 +242,7 @@ def judge(comp, fault, args, line, nofault_line, oracle):
             if not failed and fault != "@D":
                 probs.append("constructor returned NULL with no refused request")
             return probs
-        reports = [t for t in body.split()[1:] if t != "!"]
+        reports = [t for t in body.split()[1:] if t not in ("!", "*")]
         dup = "1" if (comp == "tree" and args.split()[0] == "d") else "0"
         ans = oracle(["T %s %s" % (dup, " ".join(reports))])[0]
         m = re.search(r"size=(\d+) list=(\S+)", line)
